@@ -229,7 +229,7 @@ impl GenerationalAtomicStorage {
 pub struct Recency<K> {
     mask: MetricKindMask,
     #[allow(clippy::type_complexity)]
-    inner: Mutex<(Clock, HashMap<K, (Generation, Instant)>)>,
+    inner: Mutex<(Clock, HashMap<MetricKind, HashMap<K, (Generation, Instant)>>)>,
     idle_timeout: Option<Duration>,
 }
 
@@ -323,7 +323,11 @@ where
         if let Some(idle_timeout) = self.idle_timeout {
             if self.mask.matches(kind) {
                 let mut guard = self.inner.lock().unwrap_or_else(PoisonError::into_inner);
-                let (clock, entries) = guard.deref_mut();
+                let (clock, entries_by_kind) = guard.deref_mut();
+
+                // Recency is tracked per metric kind: the same key can be registered as, say, both
+                // a counter and a gauge, and those are different metrics with unrelated generations.
+                let entries = entries_by_kind.entry(kind).or_default();
 
                 let now = clock.now();
                 let deleted = if let Some((last_gen, last_update)) = entries.get_mut(key) {
